@@ -22,6 +22,8 @@ pub struct GenCfg {
     pub fam_mutual_rec: bool,
     /// D17: two selections for the same variant type
     pub fam_double_variant: bool,
+    /// open finding: one of several selections for a variant is an inline fragment holding only a spread
+    pub fam_double_variant_sole_spread: bool,
     /// D21: variables of type ID (breaks under normalization = rust)
     pub allow_id_variable: bool,
     /// `__typename` (the only selection that carries no data) on concrete objects next to fields
@@ -60,7 +62,8 @@ impl Default for GenCfg {
             fam_object_parent: false,
             fam_typename_only: true,
             fam_mutual_rec: true,
-            fam_double_variant: false,
+            fam_double_variant: true,
+            fam_double_variant_sole_spread: false,
             allow_id_variable: true,
             typename_on_objects_percent: 12,
             deprecation_percent: 0,
@@ -770,6 +773,20 @@ impl<'a> DocGen<'a> {
                         }
                     }
                 }
+                if placed && cfg.fam_double_variant_sole_spread && t.chance(60) {
+                    // probe shape of the open finding: `... on M { ...F }` next to another selection on M
+                    let mut taken = common.clone();
+                    top_keys(&items[items.len() - 1..], &self.frags, &mut taken, &mut vec![]);
+                    let prev: Option<String> = match items.last() {
+                        Some(Selection::Spread(n)) => Some(n.clone()),
+                        _ => None,
+                    };
+                    let cands: Vec<String> = self.frags.iter().filter(|f| f.on == mname && Some(&f.name) != prev.as_ref()).filter(|f| frag_top_keys(&f.name, &self.frags).is_disjoint(&taken)).map(|f| f.name.clone()).collect();
+                    if !cands.is_empty() {
+                        items.push(Selection::Inline { on: mname.clone(), sel: vec![Selection::Spread(t.pick(&cands).clone())] });
+                        continue;
+                    }
+                }
                 if placed && cfg.fam_double_variant && t.chance(30) {
                     let sub = self.sel_set(t, Named::Object(*m), 0, &{
                         let mut c = common.clone();
@@ -778,7 +795,9 @@ impl<'a> DocGen<'a> {
                         c.extend(tk);
                         c
                     });
-                    if !sub.is_empty() {
+                    let sole = |x: &[Selection]| x.len() == 1 && matches!(x[0], Selection::Spread(_));
+                    let prev_sole = matches!(items.last(), Some(Selection::Inline { sel, .. }) if sole(sel));
+                    if !sub.is_empty() && (cfg.fam_double_variant_sole_spread || !(sole(&sub) || prev_sole)) {
                         items.push(Selection::Inline { on: mname, sel: sub });
                     }
                 }
